@@ -1339,3 +1339,102 @@ def placeholder_not_a_value(run, model, rule="C06.placeholder-not-shown"):
         atoms = [a for (nid, k), (kn, ats) in gg.edge_facts.items() for a, pol in kn if strip_sites(a)[0] == "op" and strip_sites(a)[1] == "cmp:Is" and strip_sites(a)[2][1] == PH and strip_sites(a)[2][0] == val]
         ok = any(gg.necessary([flow.cfg.entry], [st.id], (a, False)) for a in atoms)
         run.check(ok, rule, "%s:store@%d" % (fi.qual, stores.index(st)), "a name is recorded only when the table does not hold the unknown marker for it", "the value read from the name table is recorded without testing it for PLACEHOLDER: a comprehension target that shadows an argument is shown as `<name> was <Placeholder>`", fi.loc(st), None, first_line(st.stmt))
+
+
+def scope_restore(run, model, rule="C06.scope-restore"):
+    """After a comprehension the name table is exactly the table before it: a copy of the whole table is taken before
+    the targets are bound to the unknown marker and that copy is put back before the comprehension is executed.
+
+    Saving and restoring entry by entry has to tell "was unbound" from "was bound to None" (``dict.get`` cannot): a
+    None-valued variable re-used as a comprehension target would drop out of the table, and a later use of the name
+    would fall through to the built-in of that name."""
+    NT = ("attr", ("param", "self"), "_name_to_value")
+    PH = ("global", "_recompute", "PLACEHOLDER")
+    count = 0
+    for name in ("visit_GeneratorExp", "visit_ListComp", "visit_SetComp", "visit_DictComp"):
+        fi = model.method("_recompute", "Visitor", name, required=False)
+        if fi is None:
+            continue
+        count += 1
+        flow = get_flow(model, fi)
+        run.saw(flow)
+        dom = flow.cfg.dominators()
+        bad = None
+        restores, binds, others = [], [], []
+        for n in flow.cfg.nodes:
+            if n.kind == "stmt" and isinstance(n.ast, ast.Assign):
+                for tg in n.ast.targets:
+                    if isinstance(tg, ast.Attribute) and strip_sites(flow.term(tg, n)) == NT:
+                        restores.append(n)
+                    if isinstance(tg, ast.Subscript) and strip_sites(flow.term(tg.value, n)) == NT:
+                        (binds if strip_sites(flow.term(n.ast.value, n)) == PH else others).append(n)
+            if n.kind == "stmt" and isinstance(n.ast, ast.Delete):
+                for tg in n.ast.targets:
+                    if isinstance(tg, ast.Subscript) and strip_sites(flow.term(tg.value, n)) == NT:
+                        others.append(n)
+            for call, c, a in calls_in(n):
+                if isinstance(call.func, ast.Attribute) and call.func.attr in ("pop", "update", "clear", "setdefault", "popitem") and strip_sites(flow.term(call.func.value, n)) == NT:
+                    others.append(n)
+        # calls of visitor methods that were not inlined and touch the table entry-wise
+        for n in flow.cfg.nodes:
+            for call, c, a in calls_in(n):
+                if isinstance(call.func, ast.Attribute) and isinstance(call.func.value, ast.Name) and call.func.value.id == "self" and call.func.attr not in ("visit", "generic_visit", "_execute_comprehension"):
+                    hm = model.method("_recompute", "Visitor", call.func.attr, required=False)
+                    if hm is not None and any(isinstance(x, (ast.Delete, ast.Assign)) and "_name_to_value[" in src_of(x).split("=")[0] for x in ast.walk(hm.node)):
+                        others.append(n)
+        if others:
+            bad = (others[0], "the name table is changed entry by entry around the comprehension (`%s`): whether a target's name was unbound or bound to None before cannot be told apart, so a None-valued variable re-used as a target is dropped from the table" % first_line(others[0].stmt))
+        elif not binds:
+            bad = (fi.node, "the targets of the comprehension are not bound to the unknown marker while it is visited")
+        elif len(restores) != 1:
+            bad = (fi.node, "the name table is not put back by one assignment of the saved table (%d found)" % len(restores))
+        else:
+            r = restores[0]
+            v = strip_sites(flow.term(r.ast.value, r))
+            is_copy = v[0] == "call" and ((v[1] == ("attr", ("module", "copy"), "copy") and v[2] == (NT,)) or (v[1] == ("builtin", "dict") and v[2] == (NT,)) or (v[1] == ("attr", NT, "copy") and not v[2]))
+            if not is_copy:
+                bad = (r, "what is put back (%s) is not a copy of the table taken before the targets were bound" % show(v, 60))
+            else:
+                execs = [n for n in flow.cfg.nodes for call, c, a in calls_in(n) if isinstance(call.func, ast.Attribute) and call.func.attr == "_execute_comprehension"]
+                if any(r.id not in dom[e.id] for e in execs):
+                    bad = (execs[0], "the comprehension can be executed before the name table is put back")
+                # the copy is taken before any target is bound
+                def is_copy_term(t_):
+                    return t_[0] == "call" and ((t_[1] == ("attr", ("module", "copy"), "copy") and t_[2] == (NT,)) or (t_[1] == ("builtin", "dict") and t_[2] == (NT,)) or (t_[1] == ("attr", NT, "copy") and not t_[2]))
+
+                saves = [n for n in flow.cfg.nodes if n.kind == "stmt" and isinstance(n.ast, ast.Assign) and n is not r and is_copy_term(strip_sites(flow.term(n.ast.value, n)))]
+                if not saves or not all(any(sv.id in dom[b.id] for sv in saves) for b in binds):
+                    bad = bad or (r, "the copy of the table is not taken before the targets are bound")
+        where = bad[0] if bad else None
+        run.check(bad is None, rule, fi.qual, "whole-table copy before binding the targets; the copy put back before executing the comprehension", bad[1] if bad else "", fi.loc(where) if where is not None else fi.loc(), None, first_line(where.stmt) if where is not None and hasattr(where, "stmt") and where.stmt is not None else None)
+    return count
+
+
+def comprehension_env(run, model, rule="C06.comprehension-env"):
+    """The code compiled for a comprehension (and for the trace of ``all(<generator>)``) runs in the whole name table:
+    it is called with ``**self._name_to_value``.  A selected subset has to decide which names "count" -- selecting by
+    value (``is not None``, truthiness) drops None-valued variables, and the compiled code then silently reads the
+    built-in of the same name or fails with NameError, so the message shows values Python never computed."""
+    NT = ("attr", ("param", "self"), "_name_to_value")
+    count = 0
+    for name in ("_execute_comprehension", "_trace_all_with_generator"):
+        fi = model.method("_recompute", "Visitor", name, required=False)
+        if fi is None:
+            continue
+        flow = get_flow(model, fi)
+        run.saw(flow)
+        from .effects import _dynamic_callee
+
+        sites = []
+        for n in flow.cfg.nodes:
+            for call, c, a in calls_in(n):
+                if _dynamic_callee(flow.term(call.func, n)):
+                    sites.append((n, call))
+        if not sites:
+            raise AnalysisError("%s: the call of the compiled code was not found" % fi.qual)
+        for n, call in sites:
+            count += 1
+            stars = [strip_sites(flow.term(kw.value, n)) for kw in call.keywords if kw.arg is None]
+            ok = stars == [NT] and not call.args and all(kw.arg is None for kw in call.keywords)
+            run.check(ok, rule, "%s:compiled-call@%d" % (fi.qual, count), "the compiled code is called with **self._name_to_value (the whole table)", "the compiled code is called with %s instead of the whole name table: a name left out (e.g. one bound to None) is read from the builtins or is undefined inside the compiled code" % ([show(x, 50) for x in stars] or "no keyword table"), fi.loc(n), None, first_line(n.stmt))
+    return count
